@@ -258,11 +258,16 @@ TEXTS = ["value", "f.value", "f:value", "f.g.value", "kids.items.value2", "kids:
          "m.items.value", "f.items.value", "value2, f.value2, kids.items.value"]
 
 
+def is_text(gs):
+    """a mini-language text or a list of texts (as opposed to a list of graph trees)"""
+    return isinstance(gs, str) or (isinstance(gs, list) and bool(gs) and isinstance(gs[0], str))
+
+
 def mk_reg(kind, root, hid, dsp, gs, handlers=None):
     if handlers is not None and handlers[hid] == "ameth":
         dsp = 1          # coroutine-function handlers are run by the custom dispatcher of the driver
-    if isinstance(gs, str):
-        return [kind, root, hid, 0 if dsp == 1 else dsp, None, gs]      # dispatch="same" / "ui"
+    if is_text(gs):
+        return [kind, root, hid, 0 if dsp == 1 else dsp, None, gs]      # text(s): dispatch="same" / "ui"
     return [kind, root, hid, dsp, gs, None]
 
 
@@ -299,10 +304,12 @@ def gen_case(rnd, ctx, maxlen):
     # model as lists, and only within one source is "equal as sets" the same as "equal as lists".
     if rnd.random() < 0.25:
         graphsets = [rnd.choice(TEXTS if bad else TEXTS[:12]) for _ in range(rnd.randint(1, 4))]
+        # HasTraits.observe also accepts a list of expressions
+        graphsets = [([t, rnd.choice(TEXTS[:12])] if rnd.random() < 0.25 else t) for t in graphsets]
     else:
         # bound coroutine-function handlers (registered through apply_observers with the custom dispatcher)
         handlers = [("ameth" if hk == "meth" and rnd.random() < 0.4 else hk) for hk in handlers]
-    ctx.count("graphs-from:" + ("text" if isinstance(graphsets[0], str) else "objects"))
+    ctx.count("graphs-from:" + ("text" if is_text(graphsets[0]) else "objects"))
     for hk in handlers:
         ctx.count("handler:" + hk)
     incoming = set()
@@ -385,9 +392,9 @@ def gen_dyn_case(rnd, ctx, maxlen):
                 if g not in gs:
                     gs.append(g)
             graphsets.append(gs)
-    if not isinstance(graphsets[0], str):
+    if not is_text(graphsets[0]):
         handlers = [("ameth" if hk == "meth" and rnd.random() < 0.4 else hk) for hk in handlers]
-    ctx.count("graphs-from:" + ("text" if isinstance(graphsets[0], str) else "objects") + "(dynamic)")
+    ctx.count("graphs-from:" + ("text" if is_text(graphsets[0]) else "objects") + "(dynamic)")
     # generation-time copy of the containers (only to produce valid indices / keys)
     kids = {i: list(d["kids"]) for i, d in enumerate(objs)}
     mkeys = {i: ["k%d" % j for j in range(len(d["m"]))] for i, d in enumerate(objs)}
